@@ -700,8 +700,8 @@ namespace {
             ++rejected;
             if ( deep )
                 ++rejected_deep;
-            chk( P32, failed, "sm.not-rejected", verif::cat( sig_base(), " state=", st_name( st ), " opcode=", pdu.empty() ? -1 : pdu[ 0 ] ), "in reference state '", st_name( st ),
-                "' the PDU ", verif::hex( pdu ), " (", why, ") has to be answered with Pairing Failed, but the response is ", verif::hex( out ) );
+            chk( P32, failed, "sm.not-rejected", verif::cat( sig_base(), " state=", st_name( st ), " opcode=", pdu.empty() ? -1 : pdu[ 0 ] ), "not answered with Pairing Failed (", why,
+                ", reference state '", st_name( st ), "'): PDU ", verif::hex( pdu ), ", response ", verif::hex( out ) );
             chk( P32, sm.idle(), "sm.not-idle-after-failure", sig_base(), "pairing is not idle after Pairing Failed (", why, ")" );
             to_idle();
         }
@@ -735,7 +735,7 @@ namespace {
             if ( pdu.size() > cf.mtu )
                 pdu.resize( cf.mtu );  // L2CAP would not deliver more than the channel's MTU
 
-            const unsigned asks0 = g_io.asks, shown0 = g_io.shown_count, kbd0 = g_io.kbd_calls, pk0 = tb.n_passkey;
+            const unsigned asks0 = g_io.asks, shown0 = g_io.shown_count, kbd0 = g_io.kbd_calls, pk0 = tb.n_passkey, oob0 = g_oob.calls;
             const bytes    out   = sm.in( pdu );
             trace += verif::cat( " | in ", verif::hex( pdu ), " -> ", verif::hex( out ) );
 
@@ -783,7 +783,7 @@ namespace {
                 std::copy( remote.begin(), remote.end(), p2.begin() + 6 );
                 // which method would Table 2.8 select (generator steering and labels only)
                 if ( lesc )
-                    cur_method = ( preq[ 2 ] || pres[ 2 ] || ( cf.oob && g_oob.present && cf.manager == COMBINED ) ) ? OOB : table_2_8( pres[ 1 ], preq[ 1 ], true );
+                    cur_method = ( preq[ 2 ] || pres[ 2 ] || ( g_oob.calls > oob0 && g_oob.present ) ) ? OOB : table_2_8( pres[ 1 ], preq[ 1 ], true );
                 else
                     cur_method = ( preq[ 2 ] && pres[ 2 ] ) ? OOB : table_2_8( pres[ 1 ], preq[ 1 ], false );
                 return;
@@ -825,8 +825,8 @@ namespace {
                 const bool verifies = t_c1( tkp, v, p1, p2 ) == mconfirm;
                 if ( !verifies )
                 {
-                    chk( P32, !( !out.empty() && out[ 0 ] == 0x04 ), "sm.random-revealed", sig_base(), "the peripheral reveals its random value ", verif::hex( out ),
-                        " although the confirm value of the central does not verify" );
+                    chk( P32, !( !out.empty() && out[ 0 ] == 0x04 ), "sm.random-revealed", sig_base(), "the peripheral reveals its random value although the confirm value of the central does not verify: ",
+                        verif::hex( out ) );
                     return must_fail( pdu, out, "the confirm value does not verify" );
                 }
                 chk( P32, out.size() == 17 && out[ 0 ] == 0x04, "sm.rejected-in-order", sig_base(), "Pairing Random ", verif::hex( pdu ), " matching the confirm value is answered with ",
@@ -901,8 +901,8 @@ namespace {
                 reached_dhkey = true;
                 if ( !have_ea || v != ea )
                 {
-                    chk( P32, !( !out.empty() && out[ 0 ] == 0x0d ), "sm.dhkey-unverified", verif::cat( sig_base(), " when=response" ), "the peripheral sends its DHKey check ", verif::hex( out ),
-                        " in response to a DHKey check that does not verify" );
+                    chk( P32, !( !out.empty() && out[ 0 ] == 0x0d ), "sm.dhkey-unverified", verif::cat( sig_base(), " when=response" ), "the peripheral sends its DHKey check in response to a DHKey check that does not verify: ",
+                        verif::hex( out ) );
                     return must_fail( pdu, out, "the DHKey check does not verify" );
                 }
                 chk( P32, out.size() == 17 && out[ 0 ] == 0x0d, "sm.rejected-in-order", sig_base(), "a correct DHKey check is answered with ", verif::hex( out ) );
@@ -913,8 +913,7 @@ namespace {
                     return must_fail( pdu, out, ea_received ? "the DHKey check was already received" : "Pairing DHKey Check expected" );
                 reached_dhkey    = true;
                 dh_while_waiting = true;
-                chk( P32, !( !out.empty() && out[ 0 ] == 0x0d ), "sm.dhkey-unverified", verif::cat( sig_base(), " when=waiting" ), "the peripheral sends its DHKey check ", verif::hex( out ),
-                    " while the user did not answer" );
+                chk( P32, !( !out.empty() && out[ 0 ] == 0x0d ), "sm.dhkey-unverified", verif::cat( sig_base(), " when=waiting" ), "the peripheral sends its DHKey check while the user did not answer: ", verif::hex( out ) );
                 if ( have_ea && v == ea )
                 {
                     chk( P32, out.empty(), "sm.rejected-in-order", sig_base(), "a correct DHKey check while the user is asked is answered with ", verif::hex( out ) );
@@ -958,7 +957,7 @@ namespace {
                 break;
             case 0x0d:
                 chk( P32, st == S_YES && ea_received && ea_ok && out.size() == 17, "sm.dhkey-unverified", verif::cat( sig_base(), " when=poll" ), "the peripheral sends its DHKey check ",
-                    verif::hex( out ), " in reference state '", st_name( st ), "' ", ea_received ? "after a DHKey check that does not verify" : "without having received the central's DHKey check" );
+                    ea_received ? "after a DHKey check that does not verify" : "without having received the central's DHKey check", " (reference state '", st_name( st ), "'): ", verif::hex( out ) );
                 complete( true );
                 break;
             case 0x05:
@@ -1081,13 +1080,13 @@ namespace {
             return with_value( 0x03, t_c1( central_tk(), use, p1, p2 ) );
         }
 
-        bytes public_key( bool good )
+        bytes public_key( bool good, int a = 0, int b = 0 )
         {
             Hash().byte( 41 ).u64( c.seed ).u64( ++n_priv ).out( a_priv.data(), a_priv.size() );
             have_priv = true;
             pub_t pk  = t_pub( a_priv );
             if ( !good )
-                pk[ 32 + n_priv % 32 ] ^= 0x10;
+                pk[ a % 64 ] ^= static_cast< std::uint8_t >( 1 << ( b % 8 ) );
             bytes r{ 0x0c };
             r.insert( r.end(), pk.begin(), pk.end() );
             return r;
@@ -1095,13 +1094,13 @@ namespace {
 
         bytes some_value( std::uint8_t opcode ) { return with_value( opcode, Hash().byte( 44 ).u64( c.seed ).u64( ++n_na ).out16() ); }
 
-        bytes dhkey( bool good )
+        bytes dhkey( bool good, int a = 0, int b = 0 )
         {
             if ( !have_ea )
                 return some_value( 0x0d );
             u128 v = ea;
             if ( !good )
-                v[ n_na % 16 ] ^= 0x04;
+                v[ a % 16 ] ^= static_cast< std::uint8_t >( 1 << ( b % 8 ) );
             return with_value( 0x0d, v );
         }
 
@@ -1133,10 +1132,10 @@ namespace {
                     v[ a % 16 ] ^= static_cast< std::uint8_t >( 1 << ( b % 8 ) );
                 return with_value( 0x04, v );
             }
-            case S_REQ: return public_key( good );
+            case S_REQ: return public_key( good, a, b );
             case S_KEYS:
             case S_CONF: return some_value( 0x04 );
-            default: return dhkey( good );
+            default: return dhkey( good, a, b );
             }
         }
 
